@@ -126,6 +126,8 @@ def generate(rng):
     else:
         scn['peer_closes'] = rng.random() < 0.5
         scn['use_poll'] = rng.random() < 0.4
+        # a daemon-like process (standard input closed): the descriptor handed to fdspawn has the number 0
+        scn['fd_zero'] = rng.random() < 0.25
     nops = rng.choice([1, 2, 3, 4, 5, 6, 8])
     if os.environ.get('SIMPEX_TIER') == 'thorough' and rng.random() < 0.4:
         nops = rng.randint(6, 16)
@@ -521,6 +523,7 @@ def run(scn, prop=None):
                     V('C10.not_reaped', 'awaited expect reached EOF and asyncio closed the object, but the child is %s' % proc.state, **det)
                 if (o == 'wait' and res['out'] == 'ret') or (o == 'isalive' and res.get('ret') is False) or \
                         (o in ('close', 'with_exc') and res['out'] == 'ret') or \
+                        (o in ('terminate', 'terminate_force') and res['out'] == 'ret' and res.get('ret') is True and tr == 'pty') or \
                         (o == 'aexpect_eof' and res['out'] == 'ret' and child.closed and not was_closed):
                     if not child.terminated:
                         V('C09.unobserved', '%s completed but terminated is still False' % o, **det)
